@@ -17,7 +17,7 @@ func init() {
 		ID: "C05", Fn: c05, Race: false,
 		Rule:        "one evaluation = one search observed through our own UciDriver (exactly what a GUI is sent) and LastSearchResult: best move legal in the root (refchess), ponder move legal after it, every iteration PV and the final PV a playable legal sequence starting with the best move, caller's position unchanged, search returns; workload = positions incl. in-check / single-move / long-history / repetition-loaded / 50-move-edge roots x limit modes (depth, nodes, movetime, clock, infinite+stop, ponder+stop, ponder+ponderhit) x random subsets of all search switches x stop moments (node limit swept 1..N, asynchronous StopSearch after seeded delays) x warm tables (chains of searches on one Search without NewGame, 1 MB hash); distinct = distinct (root identity, limit, configuration mask, chain position)",
 		Assumptions: []string{"refchess legality", "non-termination is judged by the per-shard watchdog and goroutine dump, see DESIGN 1.2"},
-		Required:    []string{"searches", "mode_depth", "mode_nodes", "mode_movetime", "mode_clock", "mode_infinite_stop", "mode_ponder_stop", "mode_ponder_hit", "pv_lines_validated", "pv_len_ge_3", "ponder_moves_validated", "warm_table_searches", "stopped_mid_iteration", "tt_cut_searches", "roots_in_check", "roots_single_move", "roots_with_history", "node_sweep_searches", "roots_drawn_by_history", "roots_fifty_move_edge", "roots_heavy", "roots_contested_square", "roots_castling_refused"},
+		Required:    []string{"searches", "mode_depth", "mode_nodes", "mode_movetime", "mode_clock", "mode_infinite_stop", "mode_ponder_stop", "mode_ponder_hit", "pv_lines_validated", "pv_len_ge_3", "ponder_moves_validated", "warm_table_searches", "stopped_mid_iteration", "tt_cut_searches", "roots_in_check", "roots_single_move", "roots_with_history", "node_sweep_searches", "roots_drawn_by_history", "roots_fifty_move_edge", "roots_heavy", "roots_contested_square", "roots_castling_refused", "earlier_results_rechecked"},
 		MinEvals:    1000,
 		TimeoutQ:    20 * 60e9,
 		TimeoutT:    120 * 60e9,
@@ -232,6 +232,9 @@ func c05(c *Ctx) {
 		}
 	}
 
+	var prevRes search.Result
+	var prevSig string
+	havePrev := false
 	oneSearch := func(root c05root, r *Rng, mode string, cfgDesc string, chain int, nodeLimit uint64) {
 		p := root.pos()
 		before := snapshot(p, nil, true)
@@ -278,6 +281,17 @@ func c05(c *Ctx) {
 			s.WaitWhileSearching()
 		}
 		res := s.LastSearchResult()
+		// the result handed out for the previous search of this Search object is a value of its
+		// own: the search just finished must not have rewritten it
+		if havePrev {
+			rep.Eval(1)
+			rep.Inc("earlier_results_rechecked")
+			if now := movesStr(prevRes.Pv) + "|" + prevRes.BestMove.StringUci() + "|" + prevRes.PonderMove.StringUci(); now != prevSig {
+				rep.Viol("result:earlier-result-rewritten", fmt.Sprintf("the result of the previous search on this Search object read [%s] when it was delivered and reads [%s] after the next search (%s search of %s)", prevSig, now, mode, root.b.FEN()), map[string]interface{}{"fen": root.b.FEN(), "mode": mode, "config": cfgDesc})
+			}
+		}
+		prevRes, havePrev = res, true
+		prevSig = movesStr(res.Pv) + "|" + res.BestMove.StringUci() + "|" + res.PonderMove.StringUci()
 		st := s.Statistics()
 		if st.TTCuts > 0 {
 			rep.Inc("tt_cut_searches")
